@@ -490,6 +490,11 @@ impl Decl {
     }
 
     /// the concrete newtype as named in the glue
+    /// `default = next_default()`: an expression whose value changes from call to call
+    pub fn stateful_default(&self) -> bool {
+        self.has(Tr::Default) && self.default.as_ref().is_some_and(|d| d.class == "stateful")
+    }
+
     pub fn generic_default_history(&self) -> bool {
         self.generic == Generic::T && self.default.is_some() && self.has(Tr::Default)
     }
@@ -695,6 +700,13 @@ impl Decl {
                 }
             }
         }
+        if self.stateful_default() {
+            // the default expression reads a per-declaration counter: call i evaluates to default_at(i)
+            let body = &self.default.as_ref().unwrap().neutral_text;
+            w!(o, "static DCTR: ::core::sync::atomic::AtomicUsize = ::core::sync::atomic::AtomicUsize::new(0);");
+            w!(o, "pub fn default_at(i: usize) -> {ii} {{ {body} }}");
+            w!(o, "pub fn next_default() -> {ii} {{ default_at(DCTR.fetch_add(1, ::core::sync::atomic::Ordering::SeqCst)) }}");
+        }
         w!(o, "");
         w!(o, "{}", self.decl_text());
         w!(o, "");
@@ -807,12 +819,24 @@ impl Decl {
             }
         }
         match &self.default {
+            Some(_) if self.stateful_default() => w!(o, "    default_raw: None,"),
             Some(d) if is_str => w!(o, "    default_raw: Some(|| {{ let d: II = ({}).into(); d }}),", d.neutral_text),
             Some(d) => w!(o, "    default_raw: Some(|| {{ let d: II = {}; d }}),", d.neutral_text),
             None => w!(o, "    default_raw: None,"),
         }
         w!(o, "}};");
         // const evaluation
+        if self.stateful_default() {
+            // Default called six times in a row; call i must behave as the constructor does on default_at(i)
+            w!(o, "fn default_history() -> Vec<(String, bool, Option<bool>)> {{");
+            w!(o, "    DCTR.store(0, ::core::sync::atomic::Ordering::SeqCst);");
+            w!(o, "    (0..6usize).map(|i| {{");
+            w!(o, "        let exp = mk(default_at(i)).map(|t| t.into_inner());");
+            w!(o, "        let got = vlib::drive::no_panic(|| <TT as Default>::default().into_inner());");
+            w!(o, "        (format!(\"call#{{i}}\"), exp.is_some(), got.ok().map(|g| exp.as_ref() == Some(&g)))");
+            w!(o, "    }}).collect()");
+            w!(o, "}}");
+        }
         if self.generic_default_history() {
             // Default through two instantiations of one generic declaration, interleaved: the first call is
             // at the instantiation whose default is valid
@@ -889,10 +913,10 @@ impl Decl {
                 w!(o, "    from_str_err_text: vlib::g_from_str_err_text!(),");
             }
         }
-        if self.has(Tr::Default) && self.default.is_some() {
+        if self.has(Tr::Default) && self.default.is_some() && !self.stateful_default() {
             w!(o, "    default: vlib::g_default!(),");
         }
-        if self.generic_default_history() {
+        if self.generic_default_history() || self.stateful_default() {
             w!(o, "    default_history: Some(default_history),");
         }
         if self.has(Tr::Deserialize) {
